@@ -86,7 +86,7 @@ def run(chk):
                     v = st.get(nm)
                     if isinstance(v, poolpaths.Obj) and v.origin == "param":
                         rm = st.get(("removed", nm), None)
-                        ok = rm is not None and rm[1] == st.get("epoch") and rm[0] != field
+                        ok = rm is not None and rm[1] == st.get("#epoch") and rm[0] != field
                         r3.expect(ok, "ObjectPool.%s: `%s` appended to %s only after being removed from the other deque in the same hold" % (m.name, nm, field), "ObjectPool.%s:append-of-unremoved:%s" % (m.name, field), "`%s` puts an object into self.%s that this thread has not just removed from the other deque in the same lock hold (removed=%s): it can be listed twice or handed to two threads" % (node_src(node), field, rm), fn=fn, node=node)
             if m.name == "get":
                 for s, v, t in outs.of("ret"):
@@ -132,10 +132,10 @@ def run(chk):
 
     for name, runs in sorted(pooled_an.analyse(prog).items()):
         m = pooled.methods[name]
-        raw = sorted({x for r in runs for x in r.state.get("raw", ())})
-        esc = sorted({x for r in runs for x in r.state.get("escapes", ())} | {"returned to the caller" for r in runs if r.kind == "ret" and r.value == pooled_an.PC})
-        used = any(r.state.get("calls", ()) for r in runs)
-        bracketed = all(r.state.get("brackets", ()) for r in runs if r.state.get("calls", ()))
+        raw = sorted({x for r in runs for x in r.state.get("#raw", ())})
+        esc = sorted({x for r in runs for x in r.state.get("#escapes", ())} | {"returned to the caller" for r in runs if r.kind == "ret" and r.value == pooled_an.PC})
+        used = any(r.state.get("#calls", ()) for r in runs)
+        bracketed = all(r.state.get("#brackets", ()) for r in runs if r.state.get("#calls", ()))
         for x in raw:
             r5.fail("PooledClient.%s:raw-%s" % (name, x.split(".")[1].rstrip("()")), "PooledClient.%s calls %s directly instead of the get_and_release bracket" % (name, x), fn=m, node=m.node)
         if esc:
